@@ -143,6 +143,13 @@ OscStrings ==
       intro \in {<<27, 93>>, <<157>>}, code \in {48, 49, 50, 51, 57, 97},
       pay \in OscPayloads, term \in {<<7>>, <<156>>, <<27, 92>>} }
 
+\* long payloads (buffer-size / length-type assumptions), every code, introducer and terminator; a `;`, a backslash and a
+\* non-ASCII character sit near the end so that a cut or a truncation shows
+OscLong ==
+  { intro \o <<code, 59>> \o [i \in 1..n |-> IF i = n - 2 THEN 59 ELSE IF i = n - 1 THEN 92 ELSE IF i = n THEN 233 ELSE 97 + (i % 26)] \o term \o <<122>> :
+      intro \in {<<27, 93>>, <<157>>}, code \in {48, 49, 50}, term \in {<<7>>, <<156>>, <<27, 92>>},
+      n \in {31, 32, 33, 63, 64, 65, 127, 128, 129, 255, 256, 257, 511, 512, 513, 1023, 1024, 1025, 2049, 4097} }
+
 \* pairs of complete sequences: state left behind by the first (collected parameters, the
 \* private flag, an OSC payload, a pending designator) must not leak into the second
 FirstSeqs ==
@@ -170,7 +177,7 @@ Seeds == CASE Family = "graph"    -> {<<>>}
            [] Family = "oscx"     -> OscSystematic(MaxLen)
            [] Family = "pairs"    -> Pairs \cup Triples
            [] Family = "directed" -> Directed \cup LongOnes
-           [] Family = "osc"      -> OscStrings
+           [] Family = "osc"      -> OscStrings \cup OscLong
 
 -----------------------------------------------------------------------------
 Init ==
